@@ -111,6 +111,16 @@ func (o *c06Oracle) AfterStep(e *core.Engine, idx int, st *core.Step, stepErr er
 			return vs
 		}
 	}
+	for i := range keepRes {
+		if i < len(sa.Txs) && sa.Txs[i].Events != keepRes[i].Events {
+			mk("surviving-tx-events", fmt.Sprintf("surviving tx #%d: events differ on the twin without the failed transactions: twin[%s] main[%s]", i, clipS(sa.Txs[i].Events, 4000), clipS(keepRes[i].Events, 4000)))
+			return vs
+		}
+	}
+	if sa.BlockEvents != ra.BlockEvents {
+		mk("block-events", fmt.Sprintf("BeginBlock/EndBlock events differ: twin[%s] main[%s]", clipS(sa.BlockEvents, 6000), clipS(ra.BlockEvents, 6000)))
+		return vs
+	}
 	if sa.ValUpdates != ra.ValUpdates {
 		mk("validator-updates", fmt.Sprintf("validator updates differ: main[%s] twin[%s]", ra.ValUpdates, sa.ValUpdates))
 		return vs
@@ -145,7 +155,7 @@ func init() {
 	Register(&ClusterProp{
 		Id: "C06",
 		RuleText: "each run: one main replica executes a PRNG-built history biased to failures at every depth (overdrawn sends, whole-balance sends whose fee step fails, staking/delegation/withdraw failures, OLVM nonce/balance failures, unknown pools); " +
-			"a raw-mode shadow twin receives the captured RequestBeginBlock of each block, then only the transactions whose code was 0, then EndBlock/Commit. Oracle: same app hash every block, same code/data/gas for every surviving transaction, same validator updates. " +
+			"a raw-mode shadow twin receives the captured RequestBeginBlock of each block, then only the transactions whose code was 0, then EndBlock/Commit. Oracle: same app hash every block, same code/data/gas/events for every surviving transaction, same block events and validator updates. " +
 			"Block gas limit none/40M/8M per run; the running gas total is exempt: contracts never read GASLIMIT, and once the consumed total of a block reaches the limit (read from the deliver state after the block) the rest of the run is not judged. Non-trivial: >=2 failed transactions removed, >=1 successful transaction after a failed one in the same block, >=5 blocks; distinct = distinct fingerprints.",
 		MakeSetup: func(rng *rand.Rand, tier string, seed uint64) *Setup {
 			nb := 12 + rng.Intn(25)
